@@ -394,10 +394,13 @@ package fs
 //@   requires skipdir_is_an_error: filepath.SkipDir != nil
 //@   ensures prune_only_below_a_match: err == nil && filepath.Rel#1(basePath, path) == nil && result == filepath.SkipDir ==> len(out) == old(len(out)) + 1 && info.IsDir()
 //@   ensures record_only_matches: len(out) == old(len(out)) || (len(out) == old(len(out)) + 1 && out[len(out)-1] == path)
+// one path component is a pattern: the directory it is matched in is taken literally (walked as
+// the path it is), only the names below it meet the pattern
 //@ func resolveWildcards
 //@   property C15
 //@   modifies array string
-//@   effects GlobMatch GlobMatchRes
+//@   effects GlobMatch GlobMatchRes Walked
+//@   ensures base_taken_literally: cnt(Walked) == old(cnt(Walked)) + 1 && arg(Walked, 0) == basePath
 //@ func splitWildcards
 //@   property C15
 //@   modifies array string
@@ -405,7 +408,7 @@ package fs
 //@ func ResolveWildcards
 //@   property C15
 //@   modifies array string
-//@   effects RootResolve GlobMatch GlobMatchRes
+//@   effects RootResolve GlobMatch GlobMatchRes Walked
 
 // ---------------------------------------------------------------------------
 // options of Copy: each option sets exactly the field it names, to the value given
